@@ -1290,6 +1290,25 @@ V('convert',
   lambda e, w: e.convert(w.s[0], 'c', f_inc, failonerror='inline'),
   lambda e, w: e.convert(w.s[0], ('a', 'c'), f_inc, failonerror=False,
                          errorvalue=-1))
+
+
+# (the documented incremental style: mappings / converters assigned to the
+# view one at a time; still part of building the pipeline)
+def _assign(view, *items):
+    for k, v in items:
+        view[k] = v
+    return view
+
+
+V('fieldmap',
+  lambda e, w: _assign(e.fieldmap(w.s[0]), ('A', 'a'), ('expr', '{c} * 2'),
+                       ('B', ('b', f_upper)), ('n', f_rec_a)),
+  lambda e, w: _assign(e.fieldmap(w.s[0], failonerror=False),
+                       ('expr', '{c} + {a}'), ('A', 'a')))
+V('convert',
+  lambda e, w: _assign(e.convert(w.s[0]), ('c', f_inc), ('b', f_upper)),
+  lambda e, w: _assign(e.convert(w.s[0], failonerror=False),
+                       ('b', 'upper'), ('a', {1: 'one'})))
 # (the function form, called on the source as it is)
 V('cache', lambda e, w: _cache(e)(w.s[0]),
   lambda e, w: _cache(e)(w.s[0], n=3),
